@@ -712,7 +712,7 @@ Proof.
     + intros m d0 els0 Hl0. destruct (Z.eq_dec m n) as [->|Hne].
       * rewrite lookup_upsert_same in Hl0. inversion Hl0; subst. rewrite length_update_nth. exact (g_arrlen _ _ G0 n d0 els Hl).
       * rewrite lookup_upsert_other in Hl0 by assumption. exact (g_arrlen _ _ G0 m d0 els0 Hl0).
-    + rewrite (g_acur _ _ G0). simpl. clear - Hl.
+    + pose proof (g_acur _ _ G0) as Hac0. simpl in Hac0. rewrite Hac0. clear - Hl.
       induction (arrs st) as [|[k [d' e']] l IH]; simpl in *; [discriminate|].
       destruct (n =? k) eqn:Ek; simpl.
       * inversion Hl; subst. reflexivity.
@@ -721,4 +721,76 @@ Proof.
     + intros o Ho. apply Hobj, (g_tvals _ _ G0), Ho.
   - unfold errR. assert (Est0 : st0 = st) by (unfold st0; reflexivity). rewrite Est0.
     spl; auto; intros; discriminate.
+Qed.
+
+(* ---------- statement-level operations: no expression is being evaluated ---------- *)
+Definition idle (st : state) : Prop := stack st = [] /\ tvals st = [] /\ active st = [].
+
+Lemma lookup_remove_same {A} k (l : list (Z * A)) : NoDup (map fst l) -> lookup k (remove_key k l) = None.
+Proof.
+  induction l as [|[k' v'] l IH]; simpl; intros Hn; [reflexivity|]. inversion Hn as [|? ? Hni Hn']; subst.
+  destruct (k =? k') eqn:E.
+  - apply Z.eqb_eq in E; subst. destruct (lookup k' l) eqn:El; [|reflexivity].
+    exfalso. apply Hni. apply lookup_In in El. apply in_map_iff. exists (k', a). auto.
+  - simpl. rewrite E. apply IH, Hn'.
+Qed.
+
+Lemma map_fst_remove_key_incl {A} k (l : list (Z * A)) x : In x (map fst (remove_key k l)) -> In x (map fst l).
+Proof.
+  induction l as [|[k' v'] l IH]; simpl; auto. destruct (k =? k'); simpl; [auto|]. intros [H|H]; auto.
+Qed.
+
+Lemma NoDup_remove_key {A} k (l : list (Z * A)) : NoDup (map fst l) -> NoDup (map fst (remove_key k l)).
+Proof.
+  induction l as [|[k' v'] l IH]; simpl; intros Hn; [constructor|]. inversion Hn; subst.
+  destruct (k =? k'); [assumption|]. simpl. constructor; [|auto]. intros H. apply map_fst_remove_key_incl in H. contradiction.
+Qed.
+
+Lemma In_remove_key {A} k (l : list (Z * A)) x : In x (remove_key k l) -> In x l.
+Proof.
+  induction l as [|[k' v'] l IH]; simpl; auto. destruct (k =? k'); simpl; [auto|]. intros [H|H]; auto.
+Qed.
+
+Lemma sum_array_mem_nonneg (l : list (Z * (Z * list ptr))) :
+  (forall k d0 e0, In (k, (d0, e0)) l -> 0 <= d0) ->
+  0 <= fold_right Z.add 0 (map (fun '(_, (d0, _)) => array_mem d0) l).
+Proof.
+  induction l as [|[k [d' e']] l IH]; simpl; intros H; [lia|].
+  assert (0 <= d') by (apply (H k d' e'); left; reflexivity). pose proof (array_mem_pos d' H0).
+  assert (0 <= fold_right Z.add 0 (map (fun '(_, (d0, _)) => array_mem d0) l)); [|lia].
+  apply IH. intros; eapply H; right; eassumption.
+Qed.
+
+Lemma erase_good c st n :
+  Good c st -> idle st ->
+  let '(st', r) := erase st n in
+  Good c st' /\ idle st' /\ tmp st' = tmp st /\ cur st' = cur st /\ (forall h, r <> Host h) /\ r <> OutOfFuel.
+Proof.
+  intros G (Hs & Ht & Ha). unfold erase. destruct (lookup n (arrs st)) as [[d els]|] eqn:El.
+  - unfold retR. split; [|unfold idle; simpl; spl; auto; intros; discriminate].
+    destruct (g_arrlen _ _ G _ _ _ El) as [Hd _].
+    assert (Hsum : acur st - array_mem d = fold_right Z.add 0 (map (fun '(_, (d0, _)) => array_mem d0) (remove_key n (arrs st)))).
+    { rewrite (g_acur _ _ G). clear - El. induction (arrs st) as [|[k [d' e']] l IH]; simpl in *; [discriminate|].
+      destruct (n =? k) eqn:Ek; simpl; [inversion El; subst; lia|]. rewrite <- IH by exact El. lia. }
+    assert (Hlk : forall m, m <> n -> lookup m (remove_key n (arrs st)) = lookup m (arrs st)) by (intros; apply lookup_remove_other; assumption).
+    assert (Hlk2 : forall m v, lookup m (remove_key n (arrs st)) = Some v -> lookup m (arrs st) = Some v).
+    { intros m v H. destruct (Z.eq_dec m n) as [->|Hne]; [rewrite lookup_remove_same in H by exact (g_nd_arrs _ _ G); discriminate|].
+      rewrite Hlk in H; assumption. }
+    constructor; simpl.
+    + exact (g_chain _ _ G).
+    + destruct (g_low _ _ G) as (H1 & H2 & H3). split; [exact H1|]. split.
+      * rewrite Hsum. apply sum_array_mem_nonneg. intros k d0 e0 Hin. apply In_remove_key in Hin.
+        apply (In_lookup_nodup _ _ _ (g_nd_arrs _ _ G)) in Hin. apply (g_arrlen _ _ G _ _ _ Hin).
+      * pose proof (array_mem_pos d Hd). destruct H3; [left; assumption|right; lia].
+    + exact (g_j1 _ _ G).
+    + exact (g_nd_scal _ _ G).
+    + apply NoDup_remove_key, (g_nd_arrs _ _ G).
+    + exact (g_scal _ _ G).
+    + exact (g_scal_num _ _ G).
+    + intros m d0 e0 H. apply (g_arrs _ _ G m d0 e0), Hlk2, H.
+    + intros m d0 e0 H. apply (g_arrlen _ _ G m d0 e0), Hlk2, H.
+    + exact Hsum.
+    + rewrite Hs. intros fr o [].
+    + rewrite Ht. intros o [].
+  - unfold errR. spl; auto; try (intros; discriminate). unfold idle; auto.
 Qed.
